@@ -8,7 +8,10 @@
 // String() == model in plain builds); (2) deterministic Counter/Stack wait
 // scenarios with exact "returned iff the condition has held since the call";
 // (3) unlock-of-something-not-held probes; (4) free-running contention with a
-// shadow holder set, plain and -race.
+// shadow holder set, plain and -race; (5) mutex racing releases (mrace.go):
+// pre-held mutex, releases raced against fresh Lock/RLock calls, everybody must
+// finish; (1), (4) on the mutexes and (5) also run in children with the
+// repository's process-global debug mode enabled (dead-lock detection active).
 package main
 
 import (
@@ -16,6 +19,7 @@ import (
 	"fmt"
 	"hash/fnv"
 	"os"
+	"runtime"
 	"sort"
 	"strconv"
 	"strings"
@@ -32,6 +36,8 @@ type replayRec struct {
 	Wait   *waitCfg        `json:"wait,omitempty"`
 	Stress *stressCfg      `json:"stress,omitempty"`
 	Racing *raceCfg        `json:"racing,omitempty"`
+	MRace  *mraceCfg       `json:"mutex_racing,omitempty"`
+	Debug  bool            `json:"debug_mode,omitempty"` // the child ran with runtime/debug.SetEnabled(true)
 	Detail json.RawMessage `json:"detail,omitempty"`
 }
 
@@ -52,8 +58,16 @@ func allJobs(c *vf.Ctx) []job {
 	return jobs
 }
 
+// debugMode: this child runs with the repository's debug mode enabled (process-global, set once at child start).
+var debugMode bool
+
 func reportExplore(c *vf.Ctx, j job, st exploreStats) {
 	c.Count("evaluations", st.Leaves)
+	if debugMode {
+		c.Count("arrival_orders_debug_mode", st.Leaves)
+		c.Count("lock_requests_granted_debug_mode", st.Grants)
+		c.Count("parked_request_observations_debug_mode", st.ParkObs)
+	}
 	c.Count("arrival_orders:"+j.Cfg.Target, st.Leaves)
 	c.Count("requests_issued", st.Steps)
 	c.Count("lock_requests_granted", st.Grants)
@@ -97,7 +111,7 @@ func reportExplore(c *vf.Ctx, j job, st exploreStats) {
 		if strings.HasPrefix(f.FP, "notheld/rightful-") {
 			fp = f.FP // one defect of StarvingMutex, whichever front end reaches it
 		}
-		c.Violation(fp, f.What+" [programs: "+j.Cfg.key()+"; arrival order "+fmt.Sprint(rp.Order)+"]", replayRec{Mode: "script", Script: &rp})
+		c.Violation(fp, f.What+" [programs: "+j.Cfg.key()+"; arrival order "+fmt.Sprint(rp.Order)+dbgNote()+"]", replayRec{Mode: "script", Script: &rp, Debug: debugMode})
 	}
 }
 
@@ -136,6 +150,10 @@ func reportStress(c *vf.Ctx, r stressResult, race bool) {
 	if race {
 		c.Count("stress_runs_race_build", 1)
 	}
+	if debugMode {
+		c.Count("stress_runs_debug_mode", 1)
+		c.Count("stress_grants_under_contention_debug_mode", int(r.Overlaps))
+	}
 	c.Count("stress_grants", int(r.Grants))
 	c.Count("stress_grants_under_contention", int(r.Overlaps))
 	if r.Overlaps > 0 || r.Cfg.Kind == "counter" || r.Cfg.Kind == "stack" {
@@ -151,7 +169,7 @@ func reportStress(c *vf.Ctx, r stressResult, race bool) {
 		if r.Cfg.Kind == "starving" || r.Cfg.Kind == "dag" {
 			fp = r.Cfg.Kind + "/" + fp
 		}
-		c.Violation(fp, f.What+fmt.Sprintf(" [stress %s run %d seed %d race=%v]", r.Cfg.Kind, r.Cfg.Run, r.Cfg.Seed, race), replayRec{Mode: "stress", Stress: &r.Cfg, Detail: detail(r)})
+		c.Violation(fp, f.What+fmt.Sprintf(" [stress %s run %d seed %d race=%v%s]", r.Cfg.Kind, r.Cfg.Run, r.Cfg.Seed, race, dbgNote()), replayRec{Mode: "stress", Stress: &r.Cfg, Detail: detail(r), Debug: debugMode})
 	}
 }
 
@@ -178,6 +196,48 @@ func reportRacing(c *vf.Ctx, r raceResult, race bool) {
 		}
 		seen[f.FP] = true
 		c.Violation(f.FP, f.What+fmt.Sprintf(" [racing run %d seed %d race=%v]", r.Cfg.Run, r.Cfg.Seed, race), replayRec{Mode: "racing", Racing: &r.Cfg, Detail: detail(r)})
+	}
+}
+
+func dbgNote() string {
+	if debugMode {
+		return "; debug mode enabled (runtime/debug.SetEnabled(true))"
+	}
+	return ""
+}
+
+func reportMRace(c *vf.Ctx, r mraceResult, race bool) {
+	c.Count("evaluations", 1)
+	c.Count("mutex_racing_rounds", 1)
+	c.Count("mutex_racing_rounds:"+r.Target, 1)
+	c.Count("mutex_racing_rounds_mode:"+r.Mode, 1)
+	sfx := ""
+	if r.Cfg.Debug {
+		sfx = "_debug_mode"
+		c.Count("mutex_racing_rounds_debug_mode", 1)
+	}
+	if race {
+		c.Count("mutex_racing_rounds_race_build", 1)
+	}
+	c.Count("mutex_racing_grants", r.Grants)
+	c.Count("mutex_racing_acquires_in_flight_across_last_release"+sfx, r.Across)
+	c.Count("mutex_racing_acquires_called_during_last_release"+sfx, r.During)
+	c.Count("mutex_racing_acquires_returned_before_last_release", r.BeforeRel)
+	c.Count("mutex_racing_acquires_called_after_last_release", r.AfterRel)
+	c.Count("mutex_racing_releases_begun_while_conflicting_acquire_in_flight"+sfx, r.RelInAcquire)
+	if r.Across+r.During > 0 {
+		c.Count("mutex_racing_rounds_with_acquire_in_flight_at_last_release"+sfx, 1)
+		c.Distinct("nontrivial", fmt.Sprintf("mrace/%d/%d/%v/%v", r.Cfg.Seed, r.Cfg.Run, r.Cfg.Debug, race))
+	}
+	c.Distinct("mutex_racing_shapes", r.Shape)
+	seen := map[string]bool{}
+	for _, f := range r.Findings {
+		if seen[f.FP] {
+			continue
+		}
+		seen[f.FP] = true
+		cfg := r.Cfg
+		c.Violation(r.Target+"/"+f.FP, f.What+fmt.Sprintf(" [mutex racing run %d seed %d race=%v%s]", r.Cfg.Run, r.Cfg.Seed, race, dbgNote()), replayRec{Mode: "mrace", MRace: &cfg, Detail: detail(r), Debug: r.Cfg.Debug})
 	}
 }
 
@@ -228,7 +288,15 @@ func runWait(w waitCfg) waitResult {
 
 func child(c *vf.Ctx) {
 	syncutils.VerifYield = stackHook
-	race := len(c.ChildArgs) > 0 && c.ChildArgs[len(c.ChildArgs)-1] == "race"
+	mode := ""
+	if len(c.ChildArgs) > 0 {
+		mode = c.ChildArgs[len(c.ChildArgs)-1] // plain | race | debug | debug+race
+	}
+	race := mode == "race" || mode == "debug+race"
+	if mode == "debug" || mode == "debug+race" {
+		debugMode = true
+		enableDebugMode()
+	}
 	switch c.Child {
 	case "scripts":
 		k, n := atoi(c.ChildArgs[0]), atoi(c.ChildArgs[1])
@@ -277,6 +345,12 @@ func child(c *vf.Ctx) {
 		hookJitter.Store(uint64(c.Seed)*2654435761 + 1)
 		for i := lo; i < hi; i++ {
 			cfg := genStress(c.Seed, i)
+			if debugMode && cfg.Kind != "starving" && cfg.Kind != "dag" {
+				continue // the debug mode only concerns the mutexes
+			}
+			if debugMode {
+				cfg.Iters = 6 + cfg.Iters/6 // every Lock/RLock captures a stack trace into a fresh 1 MiB buffer
+			}
 			c.Mark(string(detail(cfg)))
 			reportStress(c, runStress(cfg), race)
 		}
@@ -288,6 +362,22 @@ func child(c *vf.Ctx) {
 				c.Mark(string(detail(cfg)))
 			}
 			reportRacing(c, runRacing(cfg), race)
+		}
+	case "mrace":
+		lo, hi := atoi(c.ChildArgs[0]), atoi(c.ChildArgs[1])
+		for i := lo; i < hi; i++ {
+			cfg := mraceCfg{Seed: c.Seed, Run: i, Debug: debugMode}
+			if i%64 == 0 {
+				c.Mark(string(detail(cfg)))
+			}
+			reportMRace(c, runMRace(cfg), race)
+		}
+	case "mrace1":
+		var cfg mraceCfg
+		json.Unmarshal([]byte(c.ChildArgs[0]), &cfg)
+		cfg.Debug = debugMode
+		for k := 0; k < 300; k++ { // free-running: repeat the recorded round
+			reportMRace(c, runMRace(cfg), race)
 		}
 	case "racing1":
 		var cfg raceCfg
@@ -452,16 +542,23 @@ func run(c *vf.Ctx) {
 			os.Exit(3)
 		}
 		var res vf.ChildResult
+		m := "plain"
+		if r.Debug {
+			m = "debug"
+		}
 		switch r.Mode {
 		case "script":
 			b, _ := json.Marshal(r.Script)
-			res = runChild(c, vf.ChildOpts{Name: "script1", Args: []string{string(b)}, Timeout: time.Minute})
+			res = runChild(c, vf.ChildOpts{Name: "script1", Args: []string{string(b), m}, Timeout: time.Minute})
+		case "mrace":
+			b, _ := json.Marshal(r.MRace)
+			res = runChild(c, vf.ChildOpts{Name: "mrace1", Args: []string{string(b), m}, Timeout: 3 * time.Minute})
 		case "wait":
 			b, _ := json.Marshal(r.Wait)
 			res = runChild(c, vf.ChildOpts{Name: "wait1", Args: []string{string(b)}, Timeout: time.Minute})
 		case "stress":
 			b, _ := json.Marshal(r.Stress)
-			res = runChild(c, vf.ChildOpts{Name: "stress1", Args: []string{string(b)}, Timeout: 3 * time.Minute})
+			res = runChild(c, vf.ChildOpts{Name: "stress1", Args: []string{string(b), m}, Timeout: 3 * time.Minute})
 		case "racing":
 			b, _ := json.Marshal(r.Racing)
 			res = runChild(c, vf.ChildOpts{Name: "racing1", Args: []string{string(b)}, Timeout: 3 * time.Minute})
@@ -474,7 +571,7 @@ func run(c *vf.Ctx) {
 		}
 		return
 	}
-	c.SetRule("evaluations = arrival orders executed + wait/not-held scenarios + stress runs. An arrival order is one interleaving of the actors' lock/unlock programs in which every request is issued only after the previous one returned or its goroutine was observed parked; for a configuration (2-4 actors x 1-2 lock/unlock pairs, R or W, StarvingMutex: 1 entity, DAGMutex: 1-3 entities along the order 0<1<2 incl. nested and multi-entity read locks) all feasible orders are enumerated by depth-first search (quick: 2 actors and 3 actors with <=8 requests exhaustively, the rest seeded samples; thorough: 3 actors and 4 actors with <=10 requests exhaustively). A configuration is non-trivial if at least one request had to park in some order; wait scenarios are non-trivial if a waiter was observed both parked and returned; stress runs if a grant happened while another request on the entity was in flight.")
+	c.SetRule("evaluations = arrival orders executed + wait/not-held scenarios + stress runs. An arrival order is one interleaving of the actors' lock/unlock programs in which every request is issued only after the previous one returned or its goroutine was observed parked; for a configuration (2-4 actors x 1-2 lock/unlock pairs, R or W, StarvingMutex: 1 entity, DAGMutex: 1-3 entities along the order 0<1<2 incl. nested and multi-entity read locks) all feasible orders are enumerated by depth-first search (quick: 2 actors and 3 actors with <=8 requests exhaustively, the rest seeded samples; thorough: 3 actors and 4 actors with <=10 requests exhaustively). A configuration is non-trivial if at least one request had to park in some order; wait scenarios are non-trivial if a waiter was observed both parked and returned; stress runs if a grant happened while another request on the entity was in flight. Mutex racing rounds (fresh StarvingMutex/DAGMutex pre-held by a writer or 1-3 readers; 1-5 single-shot Lock/RLock callers, passing readers and the holders' releases let go from one barrier, each release triggered by the k-th caller announcing its call plus a seeded spin/Gosched delay) are non-trivial if an acquire was in flight when the last release happened. Scripted arrival orders, mutex stress and mutex racing rounds also run in separate children with the repository's debug mode enabled (runtime/debug.SetEnabled(true), dead-lock detection time-out set to the maximum so that its timers never fire).")
 
 	var wg sync.WaitGroup
 	sem := make(chan struct{}, 12)
@@ -512,6 +609,17 @@ func run(c *vf.Ctx) {
 				finish(fmt.Sprintf("script child %d/%d (race)", k, nChunks), runChild(c, vf.ChildOpts{Name: "scripts", Args: []string{strconv.Itoa(k), strconv.Itoa(nChunks), "race"}, Race: true, Timeout: 30 * time.Minute}))
 			})
 		}
+		// the same arrival orders with the repository's debug mode enabled (process-global: separate children)
+		if k%c.Pick(8, 16) == 1 {
+			spawn(func() {
+				finish(fmt.Sprintf("script child %d/%d (debug mode)", k, nChunks), runChild(c, vf.ChildOpts{Name: "scripts", Args: []string{strconv.Itoa(k), strconv.Itoa(nChunks), "debug"}, Timeout: 30 * time.Minute}))
+			})
+		}
+		if k%c.Pick(16, 32) == 5 {
+			spawn(func() {
+				finish(fmt.Sprintf("script child %d/%d (debug mode, race)", k, nChunks), runChild(c, vf.ChildOpts{Name: "scripts", Args: []string{strconv.Itoa(k), strconv.Itoa(nChunks), "debug+race"}, Race: true, Timeout: 30 * time.Minute}))
+			})
+		}
 	}
 	// ---- Counter / Stack waits, not-held probes
 	wl := len(waitList(c))
@@ -526,13 +634,16 @@ func run(c *vf.Ctx) {
 		finish("wait child (race)", runChild(c, vf.ChildOpts{Name: "waits", Args: []string{"0", strconv.Itoa(c.Pick(300, 3000)), "race"}, Race: true, Timeout: 25 * time.Minute}))
 	})
 	// ---- stress
-	stress := func(n, per int, race bool) {
+	stress := func(n, per int, race bool, dbg ...bool) {
 		for lo := 0; lo < n; lo += per {
 			lo := lo
 			spawn(func() {
 				mode := "plain"
 				if race {
 					mode = "race"
+				}
+				if len(dbg) > 0 && dbg[0] {
+					mode = map[bool]string{false: "debug", true: "debug+race"}[race]
 				}
 				finish(fmt.Sprintf("stress child [%d..) %s", lo, mode), runChild(c, vf.ChildOpts{Name: "stress", Args: []string{strconv.Itoa(lo), strconv.Itoa(min(lo+per, n)), mode}, Race: race, Timeout: 25 * time.Minute}))
 			})
@@ -554,6 +665,21 @@ func run(c *vf.Ctx) {
 	racing(c.Pick(6000, 96000), c.Pick(1000, 5000), true)
 	stress(c.Pick(800, 16000), c.Pick(100, 500), false)
 	stress(c.Pick(240, 4000), c.Pick(40, 250), true)
+	// ---- mutex racing releases, without and with the debug mode; contention stress of the mutexes in debug mode
+	mrace := func(n, per int, mode string) {
+		for lo := 0; lo < n; lo += per {
+			lo := lo
+			spawn(func() {
+				finish(fmt.Sprintf("mutex racing child [%d..) %s", lo, mode), runChild(c, vf.ChildOpts{Name: "mrace", Args: []string{strconv.Itoa(lo), strconv.Itoa(min(lo+per, n)), mode}, Race: strings.HasSuffix(mode, "race"), Timeout: 25 * time.Minute}))
+			})
+		}
+	}
+	mrace(c.Pick(8000, 160000), c.Pick(2000, 10000), "plain")
+	mrace(c.Pick(4000, 60000), c.Pick(800, 3000), "debug")
+	mrace(c.Pick(2000, 32000), c.Pick(1000, 4000), "race")
+	mrace(c.Pick(1000, 12000), c.Pick(500, 1500), "debug+race")
+	stress(c.Pick(120, 3200), c.Pick(24, 200), false, true)
+	stress(c.Pick(32, 800), c.Pick(16, 100), true, true)
 	wg.Wait()
 
 	c.Require("evaluations", c.Pick(15000, 500000))
@@ -583,6 +709,20 @@ func run(c *vf.Ctx) {
 	c.Require("racing_waiters_called_before_change", c.Pick(10000, 200000))
 	c.Require("racing_waiters_called_after_change", c.Pick(10000, 200000))
 	c.Require("stress_runs_race_build", c.Pick(200, 3000))
+	cpus := min(runtime.NumCPU(), 4)
+	for _, t := range []string{"starving", "dag"} {
+		c.Require("mutex_racing_rounds:"+t, c.Pick(7000, 120000))
+	}
+	c.Require("mutex_racing_rounds_debug_mode", c.Pick(5000, 70000))
+	c.Require("mutex_racing_rounds_race_build", c.Pick(3000, 40000))
+	c.Require("mutex_racing_rounds_mode:parkfirst", c.Pick(800, 16000))
+	c.Require("mutex_racing_rounds_with_acquire_in_flight_at_last_release", c.Pick(2000, 40000)*cpus/4)
+	c.Require("mutex_racing_rounds_with_acquire_in_flight_at_last_release_debug_mode", c.Pick(1000, 30000)*cpus/4)
+	c.Require("mutex_racing_releases_begun_while_conflicting_acquire_in_flight_debug_mode", c.Pick(1000, 30000)*cpus/4)
+	c.Require("arrival_orders_debug_mode", c.Pick(2000, 40000))
+	c.Require("parked_request_observations_debug_mode", c.Pick(2000, 40000))
+	c.Require("stress_runs_debug_mode", c.Pick(70, 1800))
+	c.Require("stress_grants_under_contention_debug_mode", c.Pick(1000, 40000)*cpus/4)
 	c.Assume("a consistent runtime.Stack(all) snapshot in which every goroutine is parked on a sync primitive or channel (twice in a row, timer-free scenario) means no goroutine can ever run again")
 	c.Assume("sync.Cond / sync.Mutex of the Go runtime are correct; Signal wakes the longest waiter")
 }
